@@ -7,3 +7,4 @@ INVARIANT W3
 INVARIANT W4
 INVARIANT W4b
 CHECK_DEADLOCK FALSE
+INVARIANT EncMFaithful
